@@ -56,6 +56,27 @@ def run(tier):
     jobs = jobs_for(tier, rng)
     j2, traces = solverlib.run_jobs(jobs)
     solverlib.judge(rep, j2, traces, label="C07", known_key=known_key)
+    # discount factors that are not small dyadic rationals: which documented formula was applied?
+    soft = []
+    for k in range(8 if tier == "quick" else 40):
+        g = rng.choice([1.0, 1.0 - 2.0 ** -17, 1.0 - 2.0 ** -20, 0.99999, 0.999, 0.9, 0.95])
+        p = rng.randint(2, 4)
+        m = gen.ring(rng, rng.randint(2, 4), extra=rng.randint(0, 3), v0max=2, rmax=3)
+        soft.append({"soft": True, "mdp": m, "kind": "PVI", "gamma_float": g, "eps_float": 1e-9, "period": p,
+                     "calls": [p + 6], "mbs": 64, "gamma": [0, 1], "eps": [0, 0], "tag": f"soft{k}"})
+    sj, st = solverlib.run_jobs(soft)
+    payload = [{"gammaisone": t["gammaisone"], "period": t["period"], "sweeps": t["sweeps"]} for t in st]
+    sacc, srej, _, sres = C.judge_traces("BranchTrace", payload, what="C07 branch")
+    for r in sres:
+        rep.add_tlc("BranchTrace (non-dyadic discount factors)", r)
+    rep.traces += len(payload)
+    for k, t in enumerate(st):
+        rep.case({"soft": t["gamma"], "period": t["period"], "tag": t["tag"]})
+        if k in srej:
+            rep.violation(f"C07 {srej[k][0][1]} :: gamma={t['gamma']!r} period={t['period']}",
+                          {"gamma": t["gamma"], "period": t["period"], "sweeps": t["sweeps"], "clause": srej[k][0]})
+    rep.extra["branch_selection_sweeps_where_the_two_formulas_differ"] = sum(
+        1 for t in st for s_ in t["sweeps"] if s_["differ"])
     conv = sum(1 for t in traces if any(e["e"] == "conv" for e in t.get("ev", [])))
     rep.extra.update({"converged_runs": conv,
                       "runs_with_verified_gain_certificate": sum(1 for t in traces if t.get("cert", {}).get("kind") == "gain"),
